@@ -676,8 +676,13 @@ class Fxp():
                 self.status['inaccuracy'] = True
 
             # force return raw value for better precision
-            val = val.val * 2**(self.n_frac - val.n_frac)
+            _shift = self.n_frac - val.n_frac
+            val = val.val * 2**_shift
             raw = True
+
+            # a down-scaled raw value is fractional: it must reach the rounding stage as float
+            if _shift < 0 and vdtype is not None and vdtype != complex and np.issubdtype(vdtype, np.integer):
+                vdtype = float
 
         elif isinstance(val, (int, float, complex)):
             vdtype = type(val)
